@@ -298,7 +298,9 @@ def _disjuncts(t):
     # a predicate helper is its (inlined) result
     hops = 0
     while t and t[0] in ('call', 'callm') and len(t) > 3 and t[3] is not None and hops < 6 and \
-            not (t[0] == 'callm' and isinstance(t[-1], str) and len(t) > 4):
+            (not (t[0] == 'callm' and isinstance(t[-1], str) and len(t) > 4) or
+             (isinstance(t[3], tuple) and t[3] and t[3][0] == 'op')):
+        # (a member of a helper's result that is itself a boolean expression - a flag computed there)
         t = t[3]
         hops += 1
     if t and t[0] == 'op' and t[1] == '||':
@@ -309,37 +311,46 @@ def _disjuncts(t):
     return [t]
 
 
-def _padded_member(prog, qualname, member):
+def _padded_member(prog, qualname, member, _param=None, _func=None, _depth=0):
     """Does every return of the helper `qualname` hand back a local whose container member `member`
     holds at least k > 0 elements?  Accepted shapes, as top-level statements of the body with
     nothing but returns of that local after them:  if (x.m.size() < k) x.m.resize(k);   x.m.resize(k);
     while (x.m.size() < k) x.m.push_back / emplace_back(..).  Returns k or None."""
     from .. import guards
     from . import c15
-    fs = [f for f in prog.by_name(qualname) if f.body is not None and not f.is_pattern]
-    if len(fs) != 1:
-        return None
-    f = fs[0]
+    if _func is not None:
+        f = _func
+    else:
+        fs = [f for f in prog.by_name(qualname) if f.body is not None and not f.is_pattern]
+        if len(fs) != 1:
+            return None
+        f = fs[0]
 
     def literal_value(n):
         v = c15.const_value(n, f)
         return int(v) if isinstance(v, (int, float)) and not isinstance(v, bool) and v == int(v) else None
     stmts = children(f.body)
     rets = [x for x in walk(f.body) if x.get('kind') == 'ReturnStmt']
-    if not rets:
+    if _param is not None:
+        # the object is the reference parameter itself; the helper must not leave before it has padded it
+        base = '#%s:%s' % (_param.get('id'), _param.get('name'))
+        path = base
+        rets = None
+    elif not rets:
         return None
     rv = set()
-    for r in rets:
+    for r in (rets or []):
         c = children(r)
         e = strip(c[0], explicit=True) if c else None
         while e is not None and e.get('kind') in ('CXXConstructExpr', 'MaterializeTemporaryExpr', 'CXXBindTemporaryExpr',
                                                    'ExprWithCleanups') and len(children(e)) == 1:
             e = strip(children(e)[0], explicit=True)
         rv.add(guards.canon(e) if e is not None and e.get('kind') == 'DeclRefExpr' else None)
-    if len(rv) != 1 or None in rv:
-        return None
-    base = rv.pop()
-    path = base + '.' + member
+    if _param is None:
+        if len(rv) != 1 or None in rv:
+            return None
+        base = rv.pop()
+        path = base + '.' + member
 
     def mcall(n, names):
         n = strip(n, explicit=True)
@@ -386,6 +397,26 @@ def _padded_member(prog, qualname, member):
                 got = literal_value(args[0])
                 if isinstance(got, int) and got > 0:
                     k = got
+            elif _depth < 3:
+                # a padding helper handed the list by reference: what it establishes for its parameter holds for the list
+                ce = strip(st, explicit=True)
+                if ce.get('kind') == 'ExprWithCleanups' and len(children(ce)) == 1:
+                    ce = strip(children(ce)[0], explicit=True)
+                if ce.get('kind') == 'CallExpr' and len(children(ce)) >= 2:
+                    hit = [j for j, a in enumerate(children(ce)[1:]) if guards.canon(a) == path]
+                    ref = strip(children(ce)[0]).get('referencedDecl') or {}
+                    if len(hit) == 1 and ref.get('name'):
+                        cands = [g for g in prog.functions.values() if g.name == ref.get('name') and g.body is not None
+                                 and prog.in_repo(g.file) and len(g.params) == len(children(ce)) - 1]
+                        if any(not g.is_pattern for g in cands):
+                            cands = [g for g in cands if not g.is_pattern]      # the instantiations, not the template
+                        ks = set()
+                        for g in cands:
+                            prm = g.params[hit[0]]
+                            if '&' in (prm.get('type') or '') and 'const' not in (prm.get('type') or '').split('&')[0]:
+                                ks.add(_padded_member(prog, g.qualname, None, _param=prm, _func=g, _depth=_depth + 1))
+                        if len(ks) == 1 and None not in ks:
+                            k = ks.pop()
         if k is None:
             continue
         rest = stmts[i + 1:]
